@@ -9,6 +9,7 @@ import numpy as np
 
 from basictdf.tdfBlock import Block, BlockType
 from basictdf.tdfTypes import VEC2F, BTSString, TdfType, i16, i32
+from basictdf.tdfUtils import free_channel
 
 # type that stores the 4 vertices of a force platform as a 4x3 float matrix
 ForcePlatformVertices = TdfType(np.dtype("(4,3)<f4"))
@@ -141,16 +142,9 @@ class ForcePlatformsCalibrationDataBlock(Block):
         if not isinstance(platform, ForcePlatformInfo):
             raise TypeError("platform must be of type ForcePlatform")
 
-        if channel is None:
-            if len(self._platformMap) == 0:
-                next_channel = 0
-            else:
-                next_channel = max(self._platformMap) + 1
-            self._platformMap.append(next_channel)
-        else:
-            if channel in self._platformMap:
-                raise ValueError(f"channel {channel} already in use")
-            self._platformMap.append(channel)
+        self._platformMap.append(
+            free_channel(self._platformMap, i16.btype, channel)
+        )
         self._platforms.append(platform)
 
     def remove_platform(self, plat):
